@@ -197,7 +197,10 @@ Section Sig.
   Theorem header_sha256_total (x : bexchange) : total (header_sha256 H256 x).
   Proof.
     unfold header_sha256. apply total_bind; [|intros h _; apply total_Ok].
-    unfold encode_response_header. apply either_total. apply enc_map_ok_or_err.
+    unfold encode_response_header.
+    destruct ((bx_status x <? 100) || (999 <? bx_status x))%Z; [apply total_Err|].
+    destruct (negb (forallb hdr_writable_b (bx_hdr x))); [apply total_Err|].
+    apply either_total. apply enc_map_ok_or_err.
   Qed.
 
   Theorem verify_exchange_calls_total (x : bexchange) (dg : bytes) :
